@@ -530,24 +530,16 @@ Qed.
 Lemma lin_bs_pos limit cf : 1 <= lin_bs limit cf.
 Proof. unfold lin_bs. destruct (Z.quot limit cf <? 1) eqn:E; lia. Qed.
 
-Lemma lin_bs_le limit cf : 1 <= cf -> cf - 1 <= limit -> (cf - 1) * lin_bs limit cf <= limit.
-Proof.
-  intros Hcf Hl. unfold lin_bs. destruct (Z.quot limit cf <? 1) eqn:E.
-  - lia.
-  - apply Z.ltb_ge in E.
-    assert (0 <= limit) by lia.
-    rewrite Z.quot_div_nonneg in * by lia.
-    pose proof (Z.mul_div_le limit cf ltac:(lia)). nia.
-Qed.
-
 Definition in_block (limit cf i d : Z) : Prop :=
-  i * lin_bs limit cf <= d < (if i =? cf - 1 then limit else (i + 1) * lin_bs limit cf).
+  i * lin_bs limit cf <= d <
+  (if (i =? cf - 1) || (limit <? (i + 1) * lin_bs limit cf) then limit else (i + 1) * lin_bs limit cf).
 
 Lemma in_block_decs limit cf i d :
   In d (block_decs (lin_block limit cf i)) <-> in_block limit cf i d.
 Proof.
   unfold block_decs, lin_block, in_block. cbn [fst snd]. rewrite in_seqZ.
-  set (a := i * lin_bs limit cf). set (b := if i =? cf - 1 then limit else (i + 1) * lin_bs limit cf).
+  set (a := i * lin_bs limit cf).
+  set (b := if (i =? cf - 1) || (limit <? (i + 1) * lin_bs limit cf) then limit else (i + 1) * lin_bs limit cf).
   lia.
 Qed.
 
@@ -572,9 +564,10 @@ Proof.
   assert (Hq : 0 <= d / bs) by (apply Z.div_pos; lia).
   destruct (Z_lt_le_dec (d / bs) (cf - 1)) as [Hlt|Hge].
   - exists (d / bs). split; [lia|]. unfold in_block. fold bs.
-    replace (d / bs =? cf - 1) with false by lia. nia.
+    replace (d / bs =? cf - 1) with false by lia. cbn [orb].
+    destruct (Z.ltb_spec limit ((d / bs + 1) * bs)); nia.
   - exists (cf - 1). split; [lia|]. unfold in_block. fold bs.
-    replace (cf - 1 =? cf - 1) with true by lia. nia.
+    replace (cf - 1 =? cf - 1) with true by lia. cbn [orb]. nia.
 Qed.
 
 (** no decrement is tried twice *)
@@ -583,22 +576,32 @@ Lemma in_block_inj limit cf i j d :
 Proof.
   unfold in_block. pose proof (lin_bs_pos limit cf) as Hbs. set (bs := lin_bs limit cf) in *.
   intros Hi Hj H1 H2.
-  destruct (Z.eqb_spec i (cf - 1)), (Z.eqb_spec j (cf - 1)); try lia; nia.
+  destruct (Z.eqb_spec i (cf - 1)), (Z.eqb_spec j (cf - 1)),
+           (Z.ltb_spec limit ((i + 1) * bs)), (Z.ltb_spec limit ((j + 1) * bs));
+    cbn [orb] in H1, H2; try lia; nia.
 Qed.
 
-(** when GOMAXPROCS - 1 <= limit the decrements tried are exactly 0 .. limit-1 *)
-Lemma lin_decs_exact limit cf d : 1 <= cf -> cf - 1 <= limit ->
-  In d (lin_decs limit cf) -> 0 <= d < limit.
+(** the decrements tried are exactly 0 .. limit-1, whatever GOMAXPROCS
+    (before the repair of finding C03-D21 this needed GOMAXPROCS - 1 <= limit) *)
+Lemma lin_decs_exact limit cf d : In d (lin_decs limit cf) -> 0 <= d < limit.
 Proof.
-  intros Hcf Hl H. apply in_lin_decs in H as (i & Hi & H). unfold in_block in H.
-  pose proof (lin_bs_pos limit cf) as Hbs. pose proof (lin_bs_le limit cf Hcf Hl) as Hle.
+  intro H. apply in_lin_decs in H as (i & Hi & H). unfold in_block in H.
+  pose proof (lin_bs_pos limit cf) as Hbs.
   set (bs := lin_bs limit cf) in *.
-  destruct (Z.eqb_spec i (cf - 1)); nia.
+  destruct (Z.eqb_spec i (cf - 1)), (Z.ltb_spec limit ((i + 1) * bs)); cbn [orb] in H; nia.
 Qed.
 
-(** ... otherwise decrements at or above the limit are tried too (finding C03-D21) *)
-Lemma lin_decs_beyond_witness : In 2 (lin_decs 2 4) /\ lin_decs 2 1 = [0; 1].
-Proof. split; vm_compute; tauto. Qed.
+Lemma lin_decs_iff limit cf d : 1 <= cf -> (In d (lin_decs limit cf) <-> 0 <= d < limit).
+Proof. intro Hcf. split; [apply lin_decs_exact|now apply lin_decs_cover]. Qed.
+
+(** the set of decrements tried does not depend on GOMAXPROCS *)
+Lemma lin_decs_parallel limit cf1 cf2 d : 1 <= cf1 -> 1 <= cf2 ->
+  (In d (lin_decs limit cf1) <-> In d (lin_decs limit cf2)).
+Proof. intros H1 H2. now rewrite !lin_decs_iff. Qed.
+
+(** the witness of the repaired finding C03-D21: limit 2 is searched alike under 1 and 4 goroutines *)
+Lemma lin_decs_d21_fixed : lin_decs 2 4 = [0; 1] /\ lin_decs 2 1 = [0; 1].
+Proof. split; vm_compute; reflexivity. Qed.
 
 (** ** Job.Execute: the slices of combination IDs *)
 
@@ -1281,6 +1284,8 @@ Section Proofs.
   Notation job := (job D deqb pcr_init extend pcr0data st log target).
   Notation outcomes := (outcomes D deqb pcr_init extend pcr0data st log target).
   Notation kmax := (kmax D st log).
+  (** capacity of resultCh at level [k] under GOMAXPROCS = [cf] *)
+  Notation lcap cf k := (res_cap (amount64 (Z.of_nat nlog) k) cf).
 
   Lemma worker_events_in cf loc combs c o :
     In (Some (c, o)) (worker_events cf loc combs) ->
@@ -1298,8 +1303,8 @@ Section Proofs.
     exists cs c reg sw, In cs ws /\ In c cs /\ In (TFound reg sw) (try_outcomes cf loc c) /\
                         r = mkResult loc reg (disabled_of c) sw.
 
-  Lemma level_found cf loc ws r :
-    In (JFound r) (level_outcomes cf loc ws) -> from_try cf loc ws r.
+  Lemma level_found cap cf loc ws r :
+    In (JFound r) (level_outcomes cap cf loc ws) -> from_try cf loc ws r.
   Proof.
     unfold PCR0Search.level_outcomes. rewrite !in_app_iff. intros [H|[H|H]].
     - apply in_flat_map in H as (e & He & H). apply in_concat in He as (evs & Hevs & He).
@@ -1309,7 +1314,7 @@ Section Proofs.
         apply worker_events_in in He as (Hc & Ho & _). exists cs, c, reg, sw. tauto.
       + destruct H as [H|[]]; discriminate.
     - destruct (forallb _ _); [destruct H as [H|[]]; discriminate|destruct H].
-    - destruct (_ <? _); [destruct H as [H|[]]; discriminate|destruct H].
+    - destruct (Nat.ltb _ _); [destruct H as [H|[]]; discriminate|destruct H].
   Qed.
 
   Lemma job_found cf loc r : forall fuel k,
@@ -1321,7 +1326,7 @@ Section Proofs.
     - destruct (level_workers cf k) as [ws| | |] eqn:Ew; try (destruct H as [H|[]]; discriminate).
       apply in_flat_map in H as (o & Ho & H).
       destruct o; try (destruct H as [H|[]]; try discriminate).
-      + inversion H; subst. exists k, ws. split; [lia|]. split; [exact Ew|]. now apply level_found.
+      + inversion H; subst. exists k, ws. split; [lia|]. split; [exact Ew|]. eapply level_found; eauto.
       + destruct (IH _ H) as (k' & ws' & Hk & Hw & Hf). exists k', ws'. split; [lia|]. tauto.
   Qed.
 
@@ -1694,11 +1699,12 @@ Section Proofs.
     cbn [filter is_event map existsb is_tnone orb app]. apply IH. intros c Hc. apply H. now right.
   Qed.
 
-  Lemma level_outcomes_inv cf loc ws o : In o (level_outcomes cf loc ws) ->
+  Lemma level_outcomes_inv cap cf loc ws o : In o (level_outcomes cap cf loc ws) ->
     (exists r, o = JFound r /\ from_try cf loc ws r) \/
     (o = JErr /\ exists cs c, In cs ws /\ In c cs /\ In TErr (try_outcomes cf loc c)) \/
     (o = JNext /\ forall cs c, In cs ws -> In c cs -> In TNone (try_outcomes cf loc c)) \/
-    (o = JHang).
+    (o = JHang /\
+     (Z.to_nat cap < length (filter (existsb is_some) (map (worker_events cf loc) ws)))%nat).
   Proof.
     unfold PCR0Search.level_outcomes. intro H. apply in_app_or in H as [H|H]; [|apply in_app_or in H as [H|H]].
     - apply in_flat_map in H as (e & He & H). apply in_concat in He as (evs & Hevs & He).
@@ -1714,12 +1720,45 @@ Section Proofs.
       specialize (E (worker_events cf loc cs) (in_map _ _ _ Hcs)).
       apply existsb_exists in E as (x & Hx & Ex). destruct x; [discriminate|].
       eapply worker_events_none; eauto.
-    - destruct (_ <? _); [|destruct H]. destruct H as [H|[]]. subst o. right. right. right. reflexivity.
+    - destruct (Nat.ltb_spec (Z.to_nat cap) (length (filter (existsb is_some) (map (worker_events cf loc) ws))));
+        [|destruct H].
+      destruct H as [H|[]]. subst o. right. right. right. split; [reflexivity|assumption].
   Qed.
 
-  Lemma level_all_none cf loc ws : 1 <= cf ->
+  (** *** The result channel has room for every worker: the level always ends *)
+
+  Lemma filter_len_le {X} (f : X -> bool) : forall l, (length (filter f l) <= length l)%nat.
+  Proof. induction l as [|x l IH]; cbn [filter length]; [lia|]. destruct (f x); cbn [length]; lia. Qed.
+
+  Lemma collect_length {X} : forall (l : list (outcome X)) r, collect l = Ok r -> length r = length l.
+  Proof.
+    induction l as [|o l IH]; intros r H; cbn [collect] in H.
+    - inversion H. reflexivity.
+    - destruct o as [x| | |]; cbn [bind] in H; try discriminate.
+      destruct (collect l) as [r'| | |]; cbn [bind] in H; try discriminate.
+      inversion H. cbn [length]. f_equal. now apply IH.
+  Qed.
+
+  (** the capacity is the number of goroutines started *)
+  Lemma res_cap_slices amount cf : Z.to_nat (res_cap amount cf) = length (comb_slices amount cf).
+  Proof.
+    unfold res_cap, comb_slices. rewrite map_length, seqZ_length.
+    replace (amount - 1 + comb_cpr amount cf) with (amount + comb_cpr amount cf - 1) by lia. reflexivity.
+  Qed.
+
+  Lemma level_no_hang cf loc k ws : level_workers cf k = Ok ws ->
+    ~ In JHang (level_outcomes (lcap cf k) cf loc ws).
+  Proof.
+    intros Ew H. apply level_outcomes_inv in H as [(r & E & _)|[(E & _)|[(E & _)|(_ & Hlt)]]]; try discriminate.
+    unfold PCR0Search.level_workers in Ew. apply collect_length in Ew. rewrite map_length in Ew.
+    rewrite res_cap_slices in Hlt.
+    pose proof (filter_len_le (existsb is_some) (map (worker_events cf loc) ws)) as Hle.
+    rewrite map_length in Hle. lia.
+  Qed.
+
+  Lemma level_all_none cap cf loc ws : 1 <= cf ->
     (forall cs c, In cs ws -> In c cs -> try_outcomes cf loc c = [TNone]) ->
-    level_outcomes cf loc ws = [JNext].
+    level_outcomes cap cf loc ws = [JNext].
   Proof.
     intros Hcf H. unfold PCR0Search.level_outcomes.
     assert (E : map (worker_events cf loc) ws = map (fun _ => [None]) ws).
@@ -1731,17 +1770,18 @@ Section Proofs.
     { clear E1. induction ws as [|w ws IH]; [reflexivity|]. cbn [map forallb existsb is_none orb andb]. exact IH. }
     assert (E3 : filter (existsb is_some) (map (fun _ : list (list Z) => [@None (list Z * tres)]) ws) = []).
     { clear E1 E2. induction ws as [|w ws IH]; [reflexivity|]. cbn [map filter existsb is_some orb]. exact IH. }
-    rewrite E1, E2, E3. cbn [length app]. replace (cf + 1 <? Z.of_nat 0) with false by lia. reflexivity.
+    rewrite E1, E2, E3. cbn [length app].
+    destruct (Nat.ltb_spec (Z.to_nat cap) 0); [lia|reflexivity].
   Qed.
 
   (** ** The levels of one job *)
 
   Lemma job_levels_inv cf loc : forall fuel k o, In o (job_levels fuel k cf loc) ->
     (o = JNone /\ forall k', (k <= k' < k + fuel)%nat ->
-        exists ws, level_workers cf k' = Ok ws /\ In JNext (level_outcomes cf loc ws)) \/
+        exists ws, level_workers cf k' = Ok ws /\ In JNext (level_outcomes (lcap cf k') cf loc ws)) \/
     (o = JPanic /\ exists k', (k <= k' < k + fuel)%nat /\ forall ws, level_workers cf k' <> Ok ws) \/
     (exists k' ws, (k <= k' < k + fuel)%nat /\ level_workers cf k' = Ok ws /\
-        In o (level_outcomes cf loc ws) /\ o <> JNext).
+        In o (level_outcomes (lcap cf k') cf loc ws) /\ o <> JNext).
   Proof.
     induction fuel as [|f IH]; intros k o H; cbn [PCR0Search.job_levels] in H.
     - destruct H as [<-|[]]. left. split; [reflexivity|]. intros k' Hk'. lia.
@@ -1749,7 +1789,7 @@ Section Proofs.
       + apply in_flat_map in H as (o' & Ho' & H).
         assert (Hother : o' <> JNext -> In o [o'] ->
                   exists k' ws, (k <= k' < k + S f)%nat /\ level_workers cf k' = Ok ws /\
-                    In o (level_outcomes cf loc ws) /\ o <> JNext).
+                    In o (level_outcomes (lcap cf k') cf loc ws) /\ o <> JNext).
         { intros Hne [<-|[]]. exists k, ws. split; [lia|]. tauto. }
         destruct o'; try (right; right; apply Hother; [discriminate|exact H]).
         destruct (IH _ _ H) as [(-> & Hall)|[(-> & k' & Hk' & Hno)|(k' & ws' & Hk' & Hw & Hin & Hne)]].
@@ -1768,7 +1808,15 @@ Section Proofs.
     apply job_levels_inv in H as [(E & _)|[(_ & k' & Hk' & Hw)|(k' & ws & _ & _ & Hin & _)]].
     - discriminate.
     - destruct (level_workers_ok cf k' Hcf Hno ltac:(lia)) as (ws & E & _). now apply (Hw ws).
-    - apply level_outcomes_inv in Hin as [(r & E & _)|[(E & _)|[(E & _)|E]]]; discriminate.
+    - apply level_outcomes_inv in Hin as [(r & E & _)|[(E & _)|[(E & _)|(E & _)]]]; discriminate.
+  Qed.
+
+  (** no job waits for ever on its result channel (no hypothesis needed) *)
+  Lemma job_no_hang cf loc : ~ In JHang (job cf loc).
+  Proof.
+    intro H. unfold PCR0Search.job in H.
+    apply job_levels_inv in H as [(E & _)|[(E & _)|(k' & ws & _ & Ew & Hin & _)]]; try discriminate.
+    revert Hin. now apply level_no_hang.
   Qed.
 
   (** every combination of fewer than kmax measurements of the filtered log *)
@@ -1776,22 +1824,23 @@ Section Proofs.
 
   Lemma job_complete cf loc c reg s : 1 <= cf -> no_overflow -> acm_unique cf ->
     in_reach c -> space (lin_decs (lin_limit st) cf) loc c reg s ->
-    forall o, In o (job cf loc) -> (exists r, o = JFound r) \/ o = JHang.
+    forall o, In o (job cf loc) -> exists r, o = JFound r.
   Proof.
-    intros Hcf Hno Hu (Vc & Lc) Hsp o H. unfold PCR0Search.job in H.
+    intros Hcf Hno Hu (Vc & Lc) Hsp o H. pose proof (job_no_hang cf loc) as Hnh. pose proof H as Hjob.
+    unfold PCR0Search.job in H.
     apply job_levels_inv in H as [(-> & Hall)|[(-> & k' & Hk' & Hw)|(k' & ws & _ & _ & Hin & Hne)]].
     - exfalso. destruct (Hall (length c) ltac:(lia)) as (ws & Ew & Hn).
       destruct (level_workers_ok cf (length c) Hcf Hno Lc) as (ws' & Ew' & _ & Hcov).
       rewrite Ew in Ew'. apply Ok_inj in Ew'. subst ws'.
       destruct (Hcov c Vc eq_refl) as (cs & Hcs & Hc).
-      apply level_outcomes_inv in Hn as [(r & E & _)|[(E & _)|[(_ & Hn)|E]]]; try discriminate.
+      apply level_outcomes_inv in Hn as [(r & E & _)|[(E & _)|[(_ & Hn)|(E & _)]]]; try discriminate.
       apply (try_no_none cf loc c reg s Hsp). eapply Hn; eauto.
     - exfalso. destruct (level_workers_ok cf k' Hcf Hno ltac:(lia)) as (ws & E & _). now apply (Hw ws).
-    - apply level_outcomes_inv in Hin as [(r & -> & _)|[(-> & cs & c' & _ & _ & He)|[(-> & _)| -> ]]].
-      + left. eauto.
+    - apply level_outcomes_inv in Hin as [(r & -> & _)|[(-> & cs & c' & _ & _ & He)|[(-> & _)|(-> & _)]]].
+      + eauto.
       + exfalso. now apply (try_no_err cf loc c' Hu).
       + congruence.
-      + now right.
+      + exfalso. apply Hnh. exact Hjob.
   Qed.
 
   Lemma job_none cf loc : 1 <= cf -> no_overflow ->
@@ -1803,7 +1852,7 @@ Section Proofs.
     { induction fuel as [|f IH]; intros k Hk; [reflexivity|].
       cbn [PCR0Search.job_levels].
       destruct (level_workers_ok cf k Hcf Hno ltac:(lia)) as (ws & Ew & Hval & _). rewrite Ew.
-      rewrite (level_all_none cf loc ws Hcf).
+      rewrite (level_all_none _ cf loc ws Hcf).
       - cbn [flat_map app]. rewrite IH by lia. reflexivity.
       - intros cs c Hcs Hc. apply try_all_none. intros reg s. apply Hun.
         destruct (Hval cs c Hcs Hc) as (V & L). split; [exact V|lia]. }
@@ -1861,10 +1910,16 @@ Section Proofs.
     destruct x; try discriminate; tauto.
   Qed.
 
+  Lemma j_hang_true l : j_hang l = true -> In JHang l.
+  Proof.
+    unfold j_hang. intro H. apply existsb_exists in H as (x & Hx & E).
+    destruct x; try discriminate; tauto.
+  Qed.
+
   Lemma outcomes_inv cf o : In o (outcomes cf) ->
     (exists r loc, (loc = 0 \/ loc = 3) /\ o = FSome r /\ In (JFound r) (job cf loc)) \/
     (o = FNone /\ (In JNone (job cf 0) \/ In JErr (job cf 0)) /\ (In JNone (job cf 3) \/ In JErr (job cf 3))) \/
-    o = FHang \/
+    (o = FHang /\ (In JHang (job cf 0) \/ In JHang (job cf 3))) \/
     (o = FPanic /\ (In JPanic (job cf 0) \/ In JPanic (job cf 3))).
   Proof.
     unfold PCR0Search.outcomes. intro H.
@@ -1874,7 +1929,10 @@ Section Proofs.
     - destruct (j_nores (job cf 0)) eqn:E0; [|destruct H]. destruct (j_nores (job cf 3)) eqn:E3; [|destruct H].
       destruct H as [<-|[]]. right. left. split; [reflexivity|].
       split; now apply j_nores_true.
-    - destruct (_ || _); [|destruct H]. destruct H as [<-|[]]. tauto.
+    - destruct (j_hang (job cf 0)) eqn:E0.
+      + destruct H as [<-|[]]. right. right. left. split; [reflexivity|]. left. now apply j_hang_true.
+      + destruct (j_hang (job cf 3)) eqn:E3; [|destruct H].
+        destruct H as [<-|[]]. right. right. left. split; [reflexivity|]. right. now apply j_hang_true.
     - destruct (j_panic (job cf 0)) eqn:E0.
       + destruct H as [<-|[]]. right. right. right. split; [reflexivity|]. left. now apply j_panic_true.
       + destruct (j_panic (job cf 3)) eqn:E3; [|destruct H].
@@ -1882,18 +1940,25 @@ Section Proofs.
   Qed.
 
   (** *** Completeness *)
+  (** *** The call always returns *)
+  Theorem no_hang cf : ~ In FHang (outcomes cf).
+  Proof.
+    intro H. apply outcomes_inv in H as [(r & _ & _ & E & _)|[(E & _)|[(_ & Hh)|(E & _)]]]; try discriminate.
+    destruct Hh as [Hh|Hh]; revert Hh; apply job_no_hang.
+  Qed.
+
   Theorem complete cf : 1 <= cf -> no_overflow -> acm_unique cf -> reachable prop_decs ->
-    forall o, In o (outcomes cf) -> (exists r, o = FSome r) \/ o = FHang.
+    forall o, In o (outcomes cf) -> exists r, o = FSome r.
   Proof.
     intros Hcf Hno Hu (loc & c & reg & s & Hloc & Hr & Hs) o Ho.
     assert (Hs' : space (lin_decs (lin_limit st) cf) loc c reg s).
     { eapply space_mono; [|exact Hs]. intros d Hd. apply in_prop_decs in Hd. now apply lin_decs_cover. }
     pose proof (job_complete cf loc c reg s Hcf Hno Hu Hr Hs') as Hj.
-    apply outcomes_inv in Ho as [(r & _ & _ & -> & _)|[(-> & H0 & H3)|[->|(-> & Hp)]]].
-    - left. eauto.
+    apply outcomes_inv in Ho as [(r & _ & _ & -> & _)|[(-> & H0 & H3)|[(-> & Hh)|(-> & Hp)]]].
+    - eauto.
     - exfalso. assert (Hx : In JNone (job cf loc) \/ In JErr (job cf loc)) by (destruct Hloc; subst; assumption).
-      destruct Hx as [Hx|Hx]; destruct (Hj _ Hx) as [(r & E)|E]; discriminate.
-    - now right.
+      destruct Hx as [Hx|Hx]; destruct (Hj _ Hx) as (r & E); discriminate.
+    - exfalso. destruct Hh as [Hh|Hh]; revert Hh; apply job_no_hang.
     - exfalso. destruct Hp as [Hp|Hp]; revert Hp; now apply job_no_panic.
   Qed.
 
@@ -1908,11 +1973,20 @@ Section Proofs.
     unfold PCR0Search.outcomes. rewrite (Hj 0), (Hj 3) by tauto. reflexivity.
   Qed.
 
-  Theorem none cf : 1 <= cf -> cf - 1 <= lin_limit st -> no_overflow ->
+  Theorem none cf : 1 <= cf -> no_overflow ->
     ~ reachable prop_decs -> outcomes cf = [FNone].
   Proof.
-    intros Hcf Hl Hno Hun. apply none_searched; try assumption. intro H. apply Hun.
+    intros Hcf Hno Hun. apply none_searched; try assumption. intro H. apply Hun.
     eapply reachable_mono; [|exact H]. intros d Hd. apply in_prop_decs. eapply lin_decs_exact; eauto.
+  Qed.
+
+  (** the space searched under GOMAXPROCS = cf is the space of the property text *)
+  Lemma reachable_searched_iff cf : 1 <= cf ->
+    (reachable (lin_decs (lin_limit st) cf) <-> reachable prop_decs).
+  Proof.
+    intro Hcf. split; apply reachable_mono; intros d Hd.
+    - apply in_prop_decs. eapply lin_decs_exact; eauto.
+    - apply in_prop_decs in Hd. now apply lin_decs_cover.
   Qed.
 
   (** *** Every reported result is a point of the searched space *)
@@ -1938,22 +2012,27 @@ Section Proofs.
   Qed.
 
   (** *** The verdict does not depend on GOMAXPROCS *)
-  Theorem parallelism cf1 cf2 r : 1 <= cf1 -> cf1 - 1 <= lin_limit st -> 1 <= cf2 ->
+  Theorem parallelism cf1 cf2 r : 1 <= cf1 -> 1 <= cf2 ->
     no_overflow -> acm_unique cf2 -> In (FSome r) (outcomes cf1) ->
-    forall o, In o (outcomes cf2) -> (exists r', o = FSome r') \/ o = FHang.
+    forall o, In o (outcomes cf2) -> exists r', o = FSome r'.
   Proof.
-    intros H1 Hl H2 Hno Hu Hr. apply (complete cf2 H2 Hno Hu).
-    apply (reachable_mono (lin_decs (lin_limit st) cf1)); [|exact (found_reachable cf1 r H1 Hno Hr)].
-    intros d Hd. apply in_prop_decs. exact (lin_decs_exact (lin_limit st) cf1 d H1 Hl Hd).
+    intros H1 H2 Hno Hu Hr. apply (complete cf2 H2 Hno Hu).
+    apply (reachable_searched_iff cf1 H1). exact (found_reachable cf1 r H1 Hno Hr).
   Qed.
 
-  Theorem parallelism_none cf1 cf2 : 1 <= cf1 -> 1 <= cf2 -> cf2 - 1 <= lin_limit st ->
+  Theorem parallelism_none cf1 cf2 : 1 <= cf1 -> 1 <= cf2 ->
     no_overflow -> acm_unique cf1 -> outcomes cf1 = [FNone] -> outcomes cf2 = [FNone].
   Proof.
-    intros H1 H2 Hl Hno Hu E. apply none; try assumption. intro Hr.
-    destruct (complete cf1 H1 Hno Hu Hr FNone) as [(r & Er)|Er]; try discriminate.
+    intros H1 H2 Hno Hu E. apply none; try assumption. intro Hr.
+    destruct (complete cf1 H1 Hno Hu Hr FNone) as (r & Er); try discriminate.
     rewrite E. now left.
   Qed.
+
+  (** without [acm_unique]: all GOMAXPROCS settings search the same space *)
+  Theorem parallelism_space cf1 cf2 : 1 <= cf1 -> 1 <= cf2 ->
+    (reachable (lin_decs (lin_limit st) cf1) <-> reachable (lin_decs (lin_limit st) cf2)).
+  Proof. intros H1 H2. now rewrite !reachable_searched_iff. Qed.
+
 
   (** ** There is always an outcome (the theorems above are not vacuous) *)
 
@@ -2018,7 +2097,7 @@ Section Proofs.
     - intros _. exists a. split; [now left|exact E].
   Qed.
 
-  Lemma level_outcomes_ex cf loc ws : exists o, In o (level_outcomes cf loc ws).
+  Lemma level_outcomes_ex cap cf loc ws : exists o, In o (level_outcomes cap cf loc ws).
   Proof.
     unfold PCR0Search.level_outcomes.
     destruct (forallb (existsb is_none) (map (worker_events cf loc) ws)) eqn:E.
@@ -2043,7 +2122,7 @@ Section Proofs.
     induction fuel as [|f IH]; intro k; cbn [PCR0Search.job_levels].
     - exists JNone. split; [now left|discriminate].
     - destruct (level_workers cf k) as [ws| | |]; try (exists JPanic; split; [now left|discriminate]).
-      destruct (level_outcomes_ex cf loc ws) as (o' & Ho').
+      destruct (level_outcomes_ex (lcap cf k) cf loc ws) as (o' & Ho').
       destruct (IH (S k)) as (o & Ho & Hne).
       destruct o'; try (eexists; split; [apply in_flat_map; eexists; split; [exact Ho'|now left]|discriminate]).
       exists o. split; [|exact Hne]. apply in_flat_map. exists JNext. split; [exact Ho'|exact Ho].
@@ -2151,16 +2230,24 @@ Definition t_outcomes := outcomes term term_eqb Init Ext DataH.
 Definition t_reachable := reachable term Init Ext DataH.
 Definition R0 : Z := 8591017601. (* ACM_POLICY_STATUS 0x0000000200108681 *)
 
-(** finding C03-D21: MaxACMPolicyLinearDistance = 2, register off by 2 *)
+(** the witness of the repaired finding C03-D21: MaxACMPolicyLinearDistance = 2,
+    register off by 2 (outside the space): (nil, nil) under every GOMAXPROCS; off by
+    1 (inside): the same result under every GOMAXPROCS *)
 Definition st_d21 := mkSettings 4 0 false 2 2.
 Definition log_d21 : list tmeas := [MD 1 R0; MP (Atom 1)].
 Definition tgt_d21 : term := Ext (Ext (Init 3) (DataH 1 (R0 - 2))) (Atom 1).
 
-Lemma d21_witness :
+Definition tgt_d21_in : term := Ext (Ext (Init 3) (DataH 1 (R0 - 1))) (Atom 1).
+
+Lemma d21_fixed_witness :
   lin_limit st_d21 = 2 /\
-  t_outcomes st_d21 log_d21 tgt_d21 1 = [FNone] /\
-  t_outcomes st_d21 log_d21 tgt_d21 4 = [FSome (mkResult 3 (Some (R0 - 2)) [] [])].
-Proof. split; [reflexivity|]. split; vm_compute; reflexivity. Qed.
+  (forall cf, In cf [1; 2; 3; 4; 5; 16; 64] ->
+     t_outcomes st_d21 log_d21 tgt_d21 cf = [FNone] /\
+     t_outcomes st_d21 log_d21 tgt_d21_in cf = [FSome (mkResult 3 (Some (R0 - 1)) [] [])]).
+Proof.
+  split; [reflexivity|].
+  intros cf [<-|[<-|[<-|[<-|[<-|[<-|[<-|[]]]]]]]]; split; vm_compute; reflexivity.
+Qed.
 
 (** finding C03-drop-all-not-searched *)
 Definition st_da := mkSettings 4 0 false 2 2.
@@ -2175,13 +2262,20 @@ Proof.
   intros cf [<-|[<-|[<-|[<-|[]]]]]; vm_compute; reflexivity.
 Qed.
 
-(** finding C03-resultch-deadlock *)
+(** the witness of the repaired finding C03-resultch-deadlock: PCR0_DATA + 7
+    identical measurements, one of them dropped, GOMAXPROCS = 5: nine goroutines,
+    seven of them succeed, the channel has room for nine: every outcome is a result *)
 Definition st_h := mkSettings 4 0 false 2 1.
 Definition log_h : list tmeas := MD 1 R0 :: repeat (MP (Atom 1)) 7.
 Definition tgt_h : term := fold_left Ext (DataH 1 R0 :: repeat (Atom 1) 6) (Init 3).
 
-Lemma hang_witness :
-  t_reachable st_h log_h tgt_h (prop_decs st_h) /\ In FHang (t_outcomes st_h log_h tgt_h 5).
+Definition is_fsome (o : fres) : bool := match o with FSome _ => true | _ => false end.
+
+Lemma hang_fixed_witness :
+  t_reachable st_h log_h tgt_h (prop_decs st_h) /\
+  res_cap (amount64 8 1) 5 = 9 /\
+  length (filter is_fsome (t_outcomes st_h log_h tgt_h 5)) = 7%nat /\
+  forallb is_fsome (t_outcomes st_h log_h tgt_h 5) = true.
 Proof.
   split.
   - exists 3, [1], (Some R0), []. split; [now right|]. split.
@@ -2199,7 +2293,7 @@ Proof.
       * cbn [MD m_data]. exists R0. split; [reflexivity|]. left. exists 0. split; [vm_compute; tauto|].
         vm_compute. reflexivity.
       * vm_compute. reflexivity.
-  - vm_compute. tauto.
+  - split; [vm_compute; reflexivity|]. split; vm_compute; reflexivity.
 Qed.
 
 (** * Statements without the unused parameters of the section (for Props/C03.v) *)
